@@ -11,6 +11,7 @@ import (
 	"path/filepath"
 	"strconv"
 	"strings"
+	"sync"
 	"syscall"
 	"time"
 
@@ -42,26 +43,38 @@ func c14Child(args []string) {
 		os.Exit(3)
 	}
 	out := os.Stdout
-	for i := 0; i < n; i++ {
-		id := first + i
-		fmt.Fprintf(out, "start %d\n", id)
-		data, _ := json.Marshal(dEvent{ID: id, Pad: strings.Repeat("p", 10+id%50)})
-		off, err := s.Append(context.Background(), &eb.Event{Type: "checks.dEvent", Data: data, Timestamp: time.Now()})
-		if err != nil {
-			fmt.Fprintf(out, "error %v\n", err)
-			os.Exit(3)
-		}
-		fmt.Fprintf(out, "ack %d %s\n", id, off)
-		if i%2 == 1 {
-			pos, _ := strconv.Atoi(string(off))
-			fmt.Fprintf(out, "savestart %d\n", pos)
-			if err := s.SaveOffset(context.Background(), "sub", off); err != nil {
-				fmt.Fprintf(out, "error %v\n", err)
-				os.Exit(3)
-			}
-			fmt.Fprintf(out, "saveack %d\n", pos)
-		}
+	writers := 1
+	if len(args) > 4 {
+		writers, _ = strconv.Atoi(args[4])
 	}
+	var wg sync.WaitGroup
+	for w := 0; w < writers; w++ {
+		wg.Add(1)
+		go func(w int) {
+			defer wg.Done()
+			for i := w; i < n; i += writers {
+				id := first + i
+				fmt.Fprintf(out, "start %d\n", id)
+				data, _ := json.Marshal(dEvent{ID: id, Pad: strings.Repeat("p", 10+id%50)})
+				off, err := s.Append(context.Background(), &eb.Event{Type: "checks.dEvent", Data: data, Timestamp: time.Now()})
+				if err != nil {
+					fmt.Fprintf(out, "error %v\n", err)
+					os.Exit(3)
+				}
+				fmt.Fprintf(out, "ack %d %s\n", id, off)
+				if i%2 == 1 && writers == 1 {
+					pos, _ := strconv.Atoi(string(off))
+					fmt.Fprintf(out, "savestart %d\n", pos)
+					if err := s.SaveOffset(context.Background(), "sub", off); err != nil {
+						fmt.Fprintf(out, "error %v\n", err)
+						os.Exit(3)
+					}
+					fmt.Fprintf(out, "saveack %d\n", pos)
+				}
+			}
+		}(w)
+	}
+	wg.Wait()
 	if len(args) > 3 && args[3] == "close" {
 		s.Close()
 		fmt.Fprintln(out, "closed")
@@ -121,10 +134,15 @@ func killHistory(r *core.Run, rnd *rand.Rand, idx int) ([][]byte, string, error)
 		n := 2 + rnd.IntN(12)
 		clean := rnd.IntN(5) == 0
 		killAfter := 1 + rnd.IntN(4*n)
-		args := []string{"c14child", path, strconv.Itoa(next), strconv.Itoa(n)}
-		if clean {
-			args = append(args, "close")
+		writers := 1
+		if rnd.IntN(3) == 0 {
+			writers = 2
 		}
+		mode := "kill"
+		if clean {
+			mode = "close"
+		}
+		args := []string{"c14child", path, strconv.Itoa(next), strconv.Itoa(n), mode, strconv.Itoa(writers)}
 		cmd := exec.Command(Self(), args...)
 		stdout, _ := cmd.StdoutPipe()
 		if err := cmd.Start(); err != nil {
@@ -168,7 +186,7 @@ func killHistory(r *core.Run, rnd *rand.Rand, idx int) ([][]byte, string, error)
 		next += n
 		if killed {
 			emit(map[string]any{"e": "kill"})
-			desc = append(desc, fmt.Sprintf("kill@%d/%d", killAfter, n))
+			desc = append(desc, fmt.Sprintf("kill@%d/%d/w%d", killAfter, n, writers))
 		} else {
 			emit(map[string]any{"e": "close"})
 			desc = append(desc, fmt.Sprintf("close/%d", n))
@@ -181,7 +199,7 @@ func killHistory(r *core.Run, rnd *rand.Rand, idx int) ([][]byte, string, error)
 		if ids == nil {
 			ids = []int{}
 		}
-		emit(map[string]any{"e": "open", "log": ids, "writers": 1, "offsincreasing": incr, "payloadok": pok, "saved": saved})
+		emit(map[string]any{"e": "open", "log": ids, "writers": writers, "offsincreasing": incr, "payloadok": pok, "saved": saved})
 		ids2, _, _, saved2, err := readAll(path)
 		if err != nil {
 			emit(map[string]any{"e": "openerror", "msg": err.Error()})
